@@ -88,6 +88,18 @@ def gen_case(rng: random.Random) -> dict:
     return {"devs": devs, "ops": ops, "initial_connected": rng.random() < 0.7}
 
 
+class EventLog(list):
+    """Chronological log; every entry is stamped with the loop iteration it was made in."""
+
+    def __init__(self) -> None:
+        super().__init__()
+        self.iters: list[int] = []
+
+    def append(self, entry) -> None:  # type: ignore[override]
+        super().append(entry)
+        self.iters.append(getattr(asyncio.get_running_loop(), "iterations", 0))
+
+
 class RecordingQueue(asyncio.Queue):
     """xknx.telegrams (public slot) that notes what is put, when, and the connection state at that moment."""
 
@@ -106,7 +118,7 @@ class RecordingQueue(asyncio.Queue):
 def run_one(ctx, case_seed: str) -> None:
     rng = random.Random(case_seed)
     case = gen_case(rng)
-    events: list = []  # chronological: ("op", t, what, dev, extra) | ("read", t, addr, state) | ("update", t, dev)
+    events = EventLog()  # chronological: ("op", t, what, dev, extra) | ("read", t, addr, state) | ("update", t, dev)
     info: dict = {"stalled": False}
 
     async def main(loop):
@@ -255,7 +267,8 @@ def judge(ctx, case, events, wit) -> None:
         evs: list = []  # times of reads / state updates of this value in the current period (plus its start)
         first_pending = False
         nreads = 0
-        closed_at = None  # (time, cause) of the last period end
+        closed_at = None  # [time, cause, loop iteration, reads since] of the last period end
+        now_iter = 0
         label = f"{kind}-tracker" if kind else "no-tracker"
         ctx.count("trackers_" + (kind or "none"))
 
@@ -272,7 +285,7 @@ def judge(ctx, case, events, wit) -> None:
             if not open_:
                 return
             open_ = False
-            closed_at = (t, why)
+            closed_at = [t, why, now_iter, 0]  # time, cause, loop iteration, late reads seen since
             ctx.count("periods_closed")
             if first_pending:
                 if t - a > slack + EPS:
@@ -302,10 +315,11 @@ def judge(ctx, case, events, wit) -> None:
             elif not want and open_:
                 close(t, why)
 
-        for e in merged:
+        for ei, e in enumerate(merged):
             if e[0] == "op":
                 _, t, what, dev, extra = e
                 why = what
+                now_iter = merged.iters[ei]
                 if what == "add" and dev == i:
                     registered = True
                 elif what == "remove" and dev == i:
@@ -346,10 +360,14 @@ def judge(ctx, case, events, wit) -> None:
                 if addr_of.get(addr) != i:
                     continue
                 ctx.count("reads_judged")
-                # the shielded read starts one loop turn after the tracker decided to read: a loss/unregistration in that
-                # turn gives a read in the same instant -> own mechanism, distinct from trackers that keep running
-                same_instant = closed_at is not None and not open_ and t - closed_at[0] < EPS
-                suffix = "-one-loop-turn-after-" + closed_at[1] if same_instant else ""
+                # The shielded read task starts one loop iteration after the tracker decided to read.  A loss / unregistration
+                # in exactly that iteration yields ONE read at most one loop iteration after the period ended: own mechanism,
+                # distinct from trackers that keep running after they should have been stopped.
+                deferred = False
+                if closed_at is not None and not open_:
+                    closed_at[3] += 1
+                    deferred = (closed_at[3] == 1 and t - closed_at[0] < EPS and 0 <= merged.iters[ei] - closed_at[2] <= 1)
+                suffix = "-one-loop-turn-after-" + closed_at[1] if deferred else ""
                 if st != CONNECTED:
                     ctx.violation("read-issued-while-not-connected" + suffix, w(t=rel(t), state=str(st)),
                                   f"device {i} ({d['option']}): GroupValueRead put on the queue at {rel(t)} while state is {st}")
@@ -435,14 +453,19 @@ def judge(ctx, case, events, wit) -> None:
                 # a read whose tracker was cancelled (unregistered, or reset by a state update that did not answer the read)
                 # in the same instant or later is still waiting although its semaphore slot was given away
                 orphan = set()
+                live = 0
                 for rt, ra in inflight:
                     dev = addr_of[ra]
                     if last_remove.get(dev, -1.0) >= rt - EPS:
                         orphan.add("unregistration")
                     elif (parse_option(case["devs"][dev]["option"]) or ("", 0))[0] == "expire" and last_update.get(dev, -1.0) >= rt - EPS:
                         orphan.add("state-update")
-                mech = ("third-read-started-while-read-of-cancelled-tracker-still-waiting-after-" + "+".join(sorted(orphan))) if orphan \
-                    else "more-than-two-reads-in-progress"
+                    else:
+                        live += 1
+                # only if the reads of still-running trackers alone respect the limit is the excess explained by the
+                # slot that a cancelled tracker gave away while its shielded read kept waiting
+                mech = ("third-read-started-while-read-of-cancelled-tracker-still-waiting-after-" + "+".join(sorted(orphan))) \
+                    if orphan and live <= 2 else "more-than-two-reads-in-progress"
                 ctx.violation(mech, dict(wit, t=rel(t), in_flight=[(rel(rt), ra) for rt, ra in inflight]),
                               f"{len(inflight)} unanswered reads younger than {READ_TIMEOUT}s at {rel(t)}: {[ra for _, ra in inflight]}")
 
@@ -455,7 +478,7 @@ def run(ctx):
                 "expire_initial_read_replaced_by_update", "connection_lost_with_tracker_running", "periods_opened", "periods_closed",
                 "two_reads_in_flight", "trackers_init", "trackers_expire", "trackers_every", "trackers_none",
                 "init_tracker_read_exactly_once_in_last_period", "state_updates_processed")
-    n = ctx.scale(1000, 96000)
+    n = ctx.scale(1000, 64000)
     for i in range(n):
         if ctx.mine(i):
             run_one(ctx, f"C35/{ctx.seed}/{i}")
